@@ -7,7 +7,7 @@
 (***************************************************************************)
 EXTENDS GT
 
-CONSTANTS Classes, Dims, Dks, Das, Rs, Offs
+CONSTANTS Classes, Dims, Dks, Das, Rs, Offs, JointQ     \* JointQ: object 1 is a density over (y, x) (for integrate_log_conditional)
 
 n == Len(hist)
 Init == heap = <<>> /\ hist = <<>>
@@ -16,15 +16,21 @@ Sq(cls) == cls \in {"HetStep", "HetRelu"}
 
 Next ==
     \/ n = 0 /\ \E dd \in Dims, R \in Rs, s \in Offs :
-          \/ ANewPdf("PDF", "S", dd % 10, R, s)
-          \/ (R = 1 /\ dd % 10 <= 2 /\ ANewPdfChol(dd % 10, 1, s))
-    \/ n = 1 /\ \E cls \in Classes, dd \in Dims, dk \in Dks, s \in Offs :
+          \/ ANewPdf("PDF", "S", IF JointQ THEN (dd % 10) + (dd \div 10) ELSE dd % 10, R, s)
+          \/ (~JointQ /\ R = 1 /\ dd % 10 <= 2 /\ ANewPdfChol(dd % 10, 1, s))
+    \/ n = 1 /\ JointQ /\ \E cls \in Classes \cap {"LRBF", "LSEM"}, dd \in Dims, dk \in Dks, s \in Offs :
+          /\ (dd % 10) + (dd \div 10) = dx1
+          /\ ANewFeat(cls, dd \div 10, dd % 10, dk, s)
+    \/ n = 2 /\ JointQ /\ AFeatIntLogCond(2, 1)
+    \/ n = 1 /\ ~JointQ /\ \E cls \in Classes, dd \in Dims, dk \in Dks, s \in Offs :
           /\ dd % 10 = dx1
           /\ IF cls \in {"LRBF", "LSEM"} THEN hist[1].a.mode = "S" /\ ~("chol" \in DOMAIN hist[1].a) /\ ANewFeat(cls, dd \div 10, dx1, dk, s)
              ELSE \E da \in Das :
                     /\ Sq(cls) <=> ("chol" \in DOMAIN hist[1].a)
                     /\ ANewHet(cls, dd \div 10, da, dk, dx1, IF Sq(cls) THEN hist[1].a.ci + 3 * s ELSE s)
-    \/ n = 2 /\ (\/ (IsFeat(heap[2]) /\ \E N \in {1, 2} : AFeatCondOnX(2, N, 0))
+    \/ n = 2 /\ ~JointQ /\
+                (\/ (IsFeat(heap[2]) /\ \E N \in {1, 2} : AFeatCondOnX(2, N, 0))
+                 \/ (IsFeat(heap[2]) /\ \E via \in {"callable", "y"} : AFeatIntLogCondY(2, 1, 1, via))
                  \/ (IsHet(heap[2]) /\ \E N \in {1, 3} : AHetCondOnX(2, N, 0))
                  \/ (heap[2].cls = "HetStep" /\ HDa(heap[2]) = HDy(heap[2]) /\ \E s \in {0, 1} : AHetIntLogCondY(2, 1, s))
                  \/ \E k \in {"marginal", "joint", "conditional"} :
